@@ -137,6 +137,11 @@ class Fold:
             if h is None:
                 raise Uncertified("string model unbound in fold")
             return h(m, *[self.ev(a) for a in x[2]])
+        if m in ('div_euclid', 'rem_euclid'):
+            a, b = self.ev(x[2][0])[1], self.ev(x[2][1])[1]
+            q = a // b if b > 0 else -(a // -b)
+            r_ = a - q * b
+            return C(q if m == 'div_euclid' else r_, x[3])
         if m in ('bsearch_by_hit', 'bsearch_by_pos'):
             t = self.pdb.table(x[2][0][1])
             cmpd = x[2][1]
